@@ -77,7 +77,8 @@ static struct {
     sthr_t thr[SIM_MAX_THREADS];
     int nthr;
     sthr_t *cur;
-    uint64_t steps, now, quantum, max_steps, stamp;
+    uint64_t steps, now, quantum, max_steps, stamp, tail_after;
+    int tail; long tail_cnt;
     double budget, mean_gap;
     int w[SIM_K_NKIND];
     int strategy;
@@ -199,7 +200,7 @@ static void sim_abort(int kind, const char *detail)
     if (g.abort_fn) g.abort_fn(kind, detail);
     fprintf(stderr, "[sim] abnormal end %d: %s\n", kind, detail);
     sim_dump_threads(stderr);
-    _exit(kind == SIM_END_DEADLOCK ? 3 : 4);
+    _exit(kind == SIM_END_DEADLOCK ? 3 : kind == SIM_END_NOPROGRESS ? 5 : 4);
 }
 
 /* earliest future time at which something may become runnable */
@@ -255,7 +256,7 @@ static sthr_t *choose(sthr_t *t, int self_ok, int forced)
         }
         g.st.decisions++;
         sthr_t *pick = NULL;
-        if (g.replay) {
+        if (g.replay && !g.tail) {
             trace_ent_t *e = rp_lookup(t, 'W');
             if (e) {
                 if (e->a == t->id && self_in) pick = t;
@@ -349,19 +350,41 @@ static inline void sp(int kind)
     t->cnt++;
     g.steps++;
     g.now += g.quantum;
+    if (g.tail) {
+        if (--g.tail_cnt > 0 && g.steps < g.max_steps) return;
+        sp_slow(t, kind, 0);
+        return;
+    }
     if (g.replay) {
-        if ((t->rp_i < t->rp_n && t->rp[t->rp_i].cnt <= t->cnt) || g.steps > g.max_steps) sp_slow(t, kind, 0);
+        if ((t->rp_i < t->rp_n && t->rp[t->rp_i].cnt <= t->cnt) || g.steps >= g.tail_after) sp_slow(t, kind, 0);
         return;
     }
     g.budget -= g.w[kind];
-    if (g.budget > 0 && g.steps < g.max_steps) return;
+    if (g.budget > 0 && g.steps < g.tail_after) return;
     sp_slow(t, kind, 0);
+}
+
+/* fair tail (bounded liveness): after tail_after scheduling points every fault stops and the
+ * schedule becomes round-robin with a fixed time slice; if the workload still has not finished
+ * when the step budget runs out, that is "no progress within N steps once faults stopped". */
+static void enter_tail(void)
+{
+    g.tail = 1;
+    g.strategy = SIM_STRAT_RR;
+    g.stall_n = 0;
+    for (int i = 0; i < g.nthr; i++) g.thr[i].stall_until = 0;
+    g.tail_cnt = 0;
 }
 
 static void sp_slow(sthr_t *t, int kind, int forced)
 {
     (void)kind;
-    if (g.steps > g.max_steps) sim_abort(SIM_END_BUDGET, "step budget exhausted");
+    if (g.steps > g.max_steps) sim_abort(g.tail ? SIM_END_NOPROGRESS : SIM_END_BUDGET, g.tail ? "no completion within the step budget although faults stopped and scheduling was round-robin fair for the second half" : "step budget exhausted");
+    if (!g.tail && g.steps >= g.tail_after) enter_tail();
+    if (g.tail) {
+        if (g.tail_cnt <= 0 || forced) { g.tail_cnt = 3000; decide(t, 1); }
+        return;
+    }
     if (g.replay) {
         trace_ent_t *e;
         if ((e = rp_lookup(t, 'S'))) {
@@ -427,10 +450,12 @@ void sim_block_on(sim_pred_t pred, void *arg, uint64_t wake_ns, const char *what
     t->cnt++;
     g.steps++;
     g.now += g.quantum;
-    if (g.steps > g.max_steps) sim_abort(SIM_END_BUDGET, "step budget exhausted");
+    if (g.steps > g.max_steps) sim_abort(g.tail ? SIM_END_NOPROGRESS : SIM_END_BUDGET, "step budget exhausted");
+    if (!g.tail && g.steps >= g.tail_after) enter_tail();
     t->pred = pred; t->pred_arg = arg; t->wake_ns = wake_ns; t->what = what;
     t->state = ST_BLOCKED;
-    if (g.replay) {
+    if (g.tail) { /* nothing: no faults in the tail */ }
+    else if (g.replay) {
         trace_ent_t *e = rp_lookup(t, 'S');
         if (e && e->a >= 0 && e->a < g.nthr) { g.thr[e->a].stall_until = g.now + e->b; g.st.stalls_fired++; }
     } else if (g.stall_n) maybe_stall(t);
@@ -531,6 +556,7 @@ void sim_begin(const sim_params_t *p)
     rng_t *kr = &g.rng[SIM_RNG_SCHED];
     g.quantum = p->quantum_ns ? p->quantum_ns : 20;
     g.max_steps = p->max_steps ? p->max_steps : 400000000ULL;
+    g.tail_after = p->tail_after ? p->tail_after : g.max_steps / 2;
     g.record = p->record;
     g.fp = 0xcbf29ce484222325ULL;
     /* draw order is fixed whatever the params say, so explicit params do not shift streams */
